@@ -375,13 +375,13 @@ example : parallelFunctionObserved 1 [100] [100, 0, 1] (fun (n : Nat) => (Except
 /-- seeded change C18_2 in the model, with the C16 model of `fix_record_name_id`: `scaffold(1)` and
     `scaffold[1]` both become `scaffold1`; threaded in one process the second one is renamed … -/
 example : (match threaded (fixCall false) ["scaffold(1)".toList, "scaffold[1]".toList]
-      [⟨"scaffold(1)".toList, "n".toList, none, 1⟩, ⟨"scaffold[1]".toList, "n".toList, none, 2⟩] with
+      [{ id := "scaffold(1)".toList, name := "n".toList, orig := none, index := 1 }, { id := "scaffold[1]".toList, name := "n".toList, orig := none, index := 2 }] with
     | .ok p => p.2.map (·.id) == ["scaffold1".toList, "scaffold1_0".toList]
     | .error _ => false) = true := by decide
 /-- … shipped to two workers (two batches of one record) both keep `scaffold1`: duplicate ids -/
 example : parallelFunctionShipped 1 (fun t r => (fixCall false t r).map fun p => (p.1, p.2.id))
       ["scaffold(1)".toList, "scaffold[1]".toList]
-      [⟨"scaffold(1)".toList, "n".toList, none, 1⟩, ⟨"scaffold[1]".toList, "n".toList, none, 2⟩]
+      [{ id := "scaffold(1)".toList, name := "n".toList, orig := none, index := 1 }, { id := "scaffold[1]".toList, name := "n".toList, orig := none, index := 2 }]
       2 false [.done 1, .done 0] = .returned [some "scaffold1".toList, some "scaffold1".toList] := by decide
 /-- what the faithfulness hypothesis protects: a result type whose pickle loses information
     (here: `pb` forgets the second component) makes the pool path differ from the sequential one -/
